@@ -4,10 +4,10 @@ import re
 from facts import callee_names
 
 STD_VARIANTS = {
-    'std::option::Option': ['None', 'Some'],
-    'std::result::Result': ['Ok', 'Err'],
-    'std::ops::ControlFlow': ['Continue', 'Break'],
-    'std::task::Poll': ['Ready', 'Pending'],
+    'core::option::Option': ['None', 'Some'],
+    'core::result::Result': ['Ok', 'Err'],
+    'core::ops::control_flow::ControlFlow': ['Continue', 'Break'],
+    'core::task::poll::Poll': ['Ready', 'Pending'],
 }
 
 
@@ -395,10 +395,10 @@ def _projects_field(p, adt, field):
 # ---------------------------------------------------------------- K-RES
 ABSENT_VARIANTS = {'Err', 'None', 'Break', 'Pending'}
 PROPAGATING_CALLS = [
-    '<std::result::Result<T, E> as std::ops::Try>::branch',
-    '<std::option::Option<T> as std::ops::Try>::branch',
-    '<T as std::convert::Into<U>>::into',
-    '<T as std::convert::From<T>>::from',
+    '<core::result::Result<T, E> as core::ops::try_trait::Try>::branch',
+    '<core::option::Option<T> as core::ops::try_trait::Try>::branch',
+    '<T as core::convert::Into<U>>::into',
+    '<T as core::convert::From<T>>::from',
 ]
 
 
@@ -458,14 +458,14 @@ def aggregates_with_tainted_op(body, adt, tainted, variant=None):
 
 # ---------------------------------------------------------------- await / try idioms
 AWAIT_CALLS = [
-    '<F as std::future::IntoFuture>::into_future',
+    '<F as core::future::into_future::IntoFuture>::into_future',
     '*::IntoFuture::into_future',
-    'std::pin::Pin::<Ptr>::new_unchecked',
+    'core::pin::Pin::<Ptr>::new_unchecked',
     '*::Future::poll',
 ]
-TRY_BRANCH = ['<std::result::Result<T, E> as std::ops::Try>::branch',
-              '<std::option::Option<T> as std::ops::Try>::branch',
-              '<std::ops::ControlFlow<B, C> as std::ops::Try>::branch',
+TRY_BRANCH = ['<core::result::Result<T, E> as core::ops::try_trait::Try>::branch',
+              '<core::option::Option<T> as core::ops::try_trait::Try>::branch',
+              '<core::ops::control_flow::ControlFlow<B, C> as core::ops::try_trait::Try>::branch',
               '*::Try::branch']
 FROM_RESIDUAL = [re.compile(r'FromResidual.*::from_residual$')]
 
